@@ -9,6 +9,9 @@
 // carrying the source text, so that the Lean obligation fails instead of
 // silently passing. Output is sorted and carries no line numbers.
 //
+// tmplstruct.go adds structural facts about the Go text inside the templates
+// (func literals, returns, order of the safety-relevant statements).
+//
 // Only the standard library is used (go/ast, go/parser, go/types with an
 // in-process source importer, text/template/parse); no `go list`, no network.
 package main
@@ -61,6 +64,7 @@ type facts struct {
 	schedFieldInits  []pair
 	dispatchGuard    []string
 	typeErrors       []string
+	structure        structFacts
 }
 
 // ---------------------------------------------------------------------------
@@ -1978,6 +1982,8 @@ func render(fx *facts, read []string) string {
 	b.WriteString("/-- Condition(s) under which the scheduler loop's select may send on the ready channel. -/\n")
 	writeList(&b, "dispatchGuard", "String", q)
 
+	renderStruct(&b, &fx.structure)
+
 	q = nil
 	for _, s := range uniq(sortedStrings(fx.typeErrors)) {
 		q = append(q, leanStr(s))
@@ -2031,6 +2037,7 @@ func main() {
 	r.scanSourceMap(internal, fx)
 	r.scanDirectives(internal, fx)
 	r.scanScheduler(fx)
+	r.scanTemplateStructure(&fx.structure)
 
 	var read []string
 	for f := range r.read {
@@ -2050,4 +2057,7 @@ func main() {
 	fmt.Printf("extract: wrote %s (exprSites=%d hardcodedPkgRefs=%d mapRangeSites=%d randomSources=%d sourceMapWrites=%d directiveNames=%d directiveTable=%d chanCaps=%d dispatchGuard=%d typeErrors=%d filesRead=%d)\n",
 		out, len(fx.exprSites), len(fx.hardcodedPkgRefs), len(fx.mapRangeSites), len(fx.randomSources), len(fx.sourceMapWrites),
 		len(fx.directiveNames), len(fx.directiveTable), len(fx.chanCaps), len(fx.dispatchGuard), len(uniq(sortedStrings(fx.typeErrors))), len(read))
+	st := &fx.structure
+	fmt.Printf("extract: template structure: tmplFuncLits=%d topLevelReturns=%d rootOrder=%d taskBodyOrder=%d loopVarCopies=%d loopVarUses=%d endJobDeps=%d elemJobCollect=%d waitStmts=%d tmplStructUnknown=%d\n",
+		len(st.funcLits), len(st.topReturns), len(st.rootOrder), len(st.taskBodyOrder), len(st.loopVarCopies), len(st.loopVarUses), len(st.endJobDeps), len(st.elemJobCollect), len(st.waitStmts), len(uniq(pairs(st.unknown))))
 }
